@@ -15,6 +15,7 @@ import (
 	"strings"
 
 	"github.com/hedzr/logg/slog"
+	errorsv3 "gopkg.in/hedzr/errors.v3"
 
 	"verif/oracle/jsonx"
 	"verif/oracle/logfmt"
@@ -39,6 +40,9 @@ func markV[T any](s *c14site, v T) T { *s = here(runtime.Caller(1)); return v }
 
 var c14err = fmt.Errorf("an error value")
 
+// an errors.v3 error with stack info, created here - far from every log call
+var c14v3err = errorsv3.New("v3 error with a stack")
+
 // c14conf configures a derived logger like the logger under test.
 func c14conf(x slog.Logger, e *c14env) {
 	if e.conf != nil {
@@ -46,8 +50,16 @@ func c14conf(x slog.Logger, e *c14env) {
 	}
 }
 
+func c14errOrText(stack bool) any {
+	if stack {
+		return c14v3err
+	}
+	return "no error this time"
+}
+
 type c14env struct {
-	conf func(x slog.Logger)
+	reset func() // forgets the records written so far
+	conf  func(x slog.Logger)
 	l    slog.Logger     // the logger under test (already carrying skip n when n > 0)
 	sl   *logslog.Logger // log/slog logger on top of the adapter
 	std  *log.Logger     // std log bridge
@@ -65,6 +77,12 @@ type c14entry struct {
 func c14entries() []c14entry {
 	return []c14entry{
 		{"Info", "native", func(e *c14env) (s c14site) { e.l.Info(mark(&s), "k", 1); return }},
+		{"Error with a stack-carrying error attribute (created elsewhere)", "native", func(e *c14env) (s c14site) { e.l.Error(mark(&s), "err", c14v3err, "k", 1); return }},
+		{"Info from a file whose name needs escaping (//line directive)", "native", c14lineSite},
+		{"second of two records from ONE call site, the first carried a stack-carrying error", "native", func(e *c14env) (s c14site) {
+			for i := 0; i < 2; i++ { e.reset(); e.l.Error(mark(&s), "err", c14errOrText(i == 0), "k", i) }
+			return
+		}},
 		{"Error", "native", func(e *c14env) (s c14site) { e.l.Error(mark(&s), "k", 1); return }},
 		{"Warn", "native", func(e *c14env) (s c14site) { e.l.Warn(mark(&s), "k", 1); return }},
 		{"Debug", "native", func(e *c14env) (s c14site) { e.l.Debug(mark(&s), "k", 1); return }},
@@ -271,6 +289,30 @@ func c14wrapA3(l slog.Logger) { c14wrapA2(l) }
 //go:noinline
 func c14wrapA4(l slog.Logger) { c14wrapA3(l) }
 
+//go:noinline
+func c14wrapA5(l slog.Logger) { c14wrapA4(l) }
+
+//go:noinline
+func c14wrapA6(l slog.Logger) { c14wrapA5(l) }
+
+//go:noinline
+func c14wrapA7(l slog.Logger) { c14wrapA6(l) }
+
+//go:noinline
+func c14wrapA8(l slog.Logger) { c14wrapA7(l) }
+
+//go:noinline
+func c14wrapA9(l slog.Logger) { c14wrapA8(l) }
+
+//go:noinline
+func c14wrapA10(l slog.Logger) { c14wrapA9(l) }
+
+//go:noinline
+func c14wrapA11(l slog.Logger) { c14wrapA10(l) }
+
+//go:noinline
+func c14wrapA12(l slog.Logger) { c14wrapA11(l) }
+
 // inlinable variants
 func c14wrapB1(l slog.Logger) { l.ErrorContext(context.Background(), "m", "k", 1) }
 func c14wrapB2(l slog.Logger) { c14wrapB1(l) }
@@ -306,6 +348,10 @@ func c14wrappers() []c14wrapCase {
 		{"noinline chain, Info", 2, func(l slog.Logger) (s c14site) { c14wrapA2(markV(&s, l)); return }},
 		{"noinline chain, Info", 3, func(l slog.Logger) (s c14site) { c14wrapA3(markV(&s, l)); return }},
 		{"noinline chain, Info", 4, func(l slog.Logger) (s c14site) { c14wrapA4(markV(&s, l)); return }},
+		{"noinline chain, Info", 7, func(l slog.Logger) (s c14site) { c14wrapA7(markV(&s, l)); return }},
+		{"noinline chain, Info", 8, func(l slog.Logger) (s c14site) { c14wrapA8(markV(&s, l)); return }},
+		{"noinline chain, Info", 9, func(l slog.Logger) (s c14site) { c14wrapA9(markV(&s, l)); return }},
+		{"noinline chain, Info", 12, func(l slog.Logger) (s c14site) { c14wrapA12(markV(&s, l)); return }},
 		{"inlinable chain, ErrorContext", 1, func(l slog.Logger) (s c14site) { c14wrapB1(markV(&s, l)); return }},
 		{"inlinable chain, ErrorContext", 2, func(l slog.Logger) (s c14site) { c14wrapB2(markV(&s, l)); return }},
 		{"inlinable chain, ErrorContext", 3, func(l slog.Logger) (s c14site) { c14wrapB3(markV(&s, l)); return }},
@@ -437,7 +483,7 @@ func c14run1(cas c14case) *Violation {
 		if ent.kind == "package" && cas.Logger != "default" && cas.Logger != "default=child" {
 			return nil
 		}
-		env := &c14env{l: l, ctx: context.Background(), conf: conf}
+		env := &c14env{l: l, ctx: context.Background(), conf: conf, reset: rec.reset}
 		if cas.Prior == "built-off" {
 			slog.RemoveFlags(slog.Lcaller)
 			if ent.kind == "native" && cas.Logger == "child" {
@@ -493,7 +539,11 @@ func c14run1(cas c14case) *Violation {
 			}
 		}
 	case "logfmt":
-		pairs, err := logfmt.ParseLine([]byte(p))
+		first := p
+		if i := strings.IndexByte(p, '\n'); i >= 0 && slog.VerifInTesting() {
+			first = p[:i+1] // under go test an error dump may follow the record's own line (C05 is stated for production mode)
+		}
+		pairs, err := logfmt.ParseLine([]byte(first))
 		if err != nil {
 			return mk("decodable", fmt.Sprintf("%v: %.200q", err, p))
 		}
